@@ -195,6 +195,27 @@ def c02_alphabet(tier):
     bad_m = {op("remove_all", "/")}
     muts = [x for x in muts + m2 if x not in bad_m and not x.startswith(("chown", "chown_b"))]
     qs = [x for x in qs + q2 if not x.startswith("owner:")]
+    # the assert_vfs_* macros on both backends (C20 "on either backend"), traversals with option combinations (C08
+    # "identically on both backends"), symbolic chmod (C11)
+    for p in ["/a", "/b", "/a/b", "b"]:
+        for mname in ["exists", "no_exists", "is_dir", "no_dir", "is_file", "no_file", "is_symlink", "no_symlink", "mkdir_p", "mkfile", "remove", "remove_all"]:
+            qs.append("macro:%s:%s" % (mname, hx(p)))
+        for d in ["x", ""]:
+            qs.append("macro:read_all:%s:%s" % (hx(p), hx(d)))
+            qs.append("macro:write_all:%s:%s" % (hx(p), hx(d)))
+        for t in ["/a", "b"]:
+            qs.append("macro:readlink:%s:%s" % (hx(p), hx(t)))
+            qs.append("macro:readlink_abs:%s:%s" % (hx(p), hx(t)))
+            if ("/" + p.lstrip("/")) != ("/" + t.lstrip("/")):
+                # (a link onto itself leaves the domain inside the macro, whose checks are further calls)
+                qs.append("macro:symlink:%s:%s" % (hx(p), hx(t)))
+        for md in [0o755, 0o700, 0o1755]:
+            qs.append("macro:mkdir_m:%s::%d" % (hx(p), md))
+        for o in ["sort,min=1,cf", "sort,df,max=1", "sort,ff,cf,min=1", "sort,files,cf", "sort,dirs,min=1,max=2", "min=1", "cf", "sort,follow=1,min=1,cf"]:
+            qs.append("entries:%s:%s" % (hx(p), o))
+        for sym in ["f:a+x", "d:go-rwx,f:go-rw", "a:u=rw", "a:a-rwx"]:
+            for o in ["", "follow=1", "norecurse"]:
+                qs.append("chmod_b:%s:%s:%s" % (hx(p), o, hx(sym)))
     return muts, qs
 
 
